@@ -1442,6 +1442,8 @@ func runC04(c *Checker) {
 	ruleConnDataSetters(c, "PUBLISH", true)
 	ruleVersionConfig(c, "HSK-VER")
 	rulePayloadSource(c, "PUBLISH")
+	ruleReceivedPayload(c, "PUBLISH")
+	rulePayloadFraming(c, "PUBLISH")
 	pub("SetAuthData", fRP, func(f Fact) bool { return f.Val && isLoadOfField(f.Cond, fInit) },
 		"SetAuthData(receivedPayload) iff initiator, after split, error checked")
 	c.floor("PUBLISH", 3)
@@ -2155,4 +2157,206 @@ func rulePayloadSource(c *Checker, rule string) {
 			"the act payload that writeMsgPattern encrypts comes from "+bad+": storage that outlives the call can still hold (part of) another handshake's auth payload")
 	}
 	c.decide(n >= 3, rule, "writeMsgPattern|payload sites", token.NoPos, fmt.Sprintf("%d EncryptAndHash calls", n), fmt.Sprintf("only %d EncryptAndHash calls in writeMsgPattern", n))
+}
+
+// ruleReceivedPayload: what the initiator keeps as the responder's auth payload is exactly what
+// the responder's writer framed (mirror of the writer side, which is checked by HSK-BIND /
+// rulePayloadSource):
+//
+//	v1/v2: the whole plaintext of the act-2 body, stored under ActNum == 2 only;
+//	v0:    a buffer of this call of length BigEndian.Uint16(plaintext[:2]), filled by
+//	       io.ReadFull from a reader over plaintext[2:] whose error is checked.
+func ruleReceivedPayload(c *Checker, rule string) {
+	w := c.w
+	rmp := mboxFunc(c, "(*mailbox.handshakeState).readMsgPattern")
+	fRP := w.Field("mailbox.handshakeState.receivedPayload")
+	fAct := w.Field("mailbox.MessagePattern.ActNum")
+	if rmp == nil || fRP == nil || fAct == nil {
+		c.anchorFail("handshakeState.readMsgPattern / receivedPayload / MessagePattern.ActNum")
+		return
+	}
+	dahResult := func(v ssa.Value) *ssa.Call {
+		ex, ok := unwrapLoadAlloc(v).(*ssa.Extract)
+		if !ok || ex.Index != 0 {
+			return nil
+		}
+		call, ok := ex.Tuple.(*ssa.Call)
+		if !ok || !calleeNameIsCI(call, "DecryptAndHash") {
+			return nil
+		}
+		return call
+	}
+	nWhole, nFramed := 0, 0
+	for _, st := range w.Stores(fRP) {
+		if st.Parent() != rmp {
+			continue
+		}
+		v := unwrapLoadAlloc(st.Val)
+		if dahResult(v) != nil {
+			nWhole++
+			under2 := hasFact(st.Block(), func(f Fact) bool {
+				return factRel(f, func(x ssa.Value) bool { return isLoadOfField(x, fAct) }, func(x ssa.Value) bool { k, ok := intConst(x); return ok && k == 2 }) == "=="
+			})
+			c.decide(under2, rule, "readMsgPattern|the act-2 plaintext is the received payload (v1+)", instrPos(st), "receivedPayload = DecryptAndHash(body) under ActNum == 2",
+				"the received auth payload is taken from the plaintext of an act other than act 2 (or of every act): the initiator ends up with an empty or wrong payload")
+			continue
+		}
+		// v0: framed buffer
+		nFramed++
+		okk, why := false, "the stored value is "+w.canonFB(v)
+		if mk, ok := v.(*ssa.MakeSlice); ok && mk.Parent() == rmp {
+			// length = Uint16(plain[:2])
+			var plain ssa.Value
+			lenOK := false
+			for _, lv := range expandValues(mk.Len) {
+				x := lv
+				narrowed := false
+				for {
+					if cv, ok := x.(*ssa.Convert); ok {
+						if b, ok := cv.Type().Underlying().(*types.Basic); ok && (b.Kind() == types.Uint8 || b.Kind() == types.Int8) {
+							narrowed = true
+						}
+						x = cv.X
+						continue
+					}
+					break
+				}
+				if call, ok := x.(*ssa.Call); ok && !narrowed {
+					if sc := call.Common().StaticCallee(); sc != nil && sc.Name() == "Uint16" && sc.Pkg != nil && sc.Pkg.Pkg.Path() == "encoding/binary" {
+						a := call.Common().Args
+						if sl, ok := a[len(a)-1].(*ssa.Slice); ok && sl.Low == nil && sl.High != nil {
+							if k, isK := intConst(sl.High); isK && k == 2 && dahResult(sl.X) != nil {
+								plain = sl.X
+								lenOK = true
+							}
+						}
+					}
+				}
+			}
+			// filled by io.ReadFull(reader over plain[2:], buf), error checked, before the store
+			fillOK := false
+			for _, r := range *mk.Referrers() {
+				call, ok := r.(*ssa.Call)
+				if !ok || !staticCalleeIs(call.Common(), "io", "", "ReadFull") || call.Common().Args[1] != ssa.Value(mk) || !instrDominates(call, st) {
+					continue
+				}
+				rd := call.Common().Args[0]
+				if mi, ok := rd.(*ssa.MakeInterface); ok {
+					rd = mi.X
+				}
+				if nr, ok := rd.(*ssa.Call); ok && staticCalleeIs(nr.Common(), "bytes", "", "NewReader") {
+					if sl, ok := nr.Common().Args[0].(*ssa.Slice); ok && sl.High == nil && sl.Low != nil && sl.X == plain {
+						if k, isK := intConst(sl.Low); isK && k == 2 {
+							if e, _ := errCheckedAndReturned(call, 1); e {
+								fillOK = true
+							}
+						}
+					}
+				}
+			}
+			okk = lenOK && fillOK
+			why = fmt.Sprintf("length is Uint16(plaintext[:2]): %v, filled from plaintext[2:] with the error checked: %v", lenOK, fillOK)
+		}
+		c.decide(okk, rule, "readMsgPattern|the v0 payload is unframed exactly (2-byte length, then that many bytes)", instrPos(st), "make([]byte, Uint16(p[:2])) filled by io.ReadFull(bytes.NewReader(p[2:]))",
+			"the version-0 auth payload is not cut out of the fixed act-2 buffer by its 2-byte length prefix ("+why+"): the initiator holds padding, the prefix itself or a truncated payload")
+	}
+	c.decide(nWhole == 1 && nFramed == 1, rule, "readMsgPattern|payload stores", token.NoPos, "one store per framing (v0 framed, v1+ whole)", fmt.Sprintf("expected one framed (v0) and one whole-plaintext (v1+) store of receivedPayload, found %d and %d", nFramed, nWhole))
+}
+
+// rulePayloadFraming (writer side of ruleReceivedPayload): the length prefix the responder puts
+// in front of its auth payload is exactly len(payloadToSend) - 2 bytes big endian for version 0,
+// 4 bytes for version 1/2 - and what follows the prefix is payloadToSend itself, whole; for
+// version 0 the framed bytes are copied to the START of the fixed-size buffer.
+func rulePayloadFraming(c *Checker, rule string) {
+	w := c.w
+	wmp := mboxFunc(c, "(*mailbox.handshakeState).writeMsgPattern")
+	fPay := w.Field("mailbox.handshakeState.payloadToSend")
+	if wmp == nil || fPay == nil {
+		return
+	}
+	isLenOfPayload := func(v ssa.Value) bool {
+		for {
+			cv, ok := v.(*ssa.Convert)
+			if !ok {
+				break
+			}
+			v = cv.X
+		}
+		call, ok := v.(*ssa.Call)
+		if !ok {
+			return false
+		}
+		bi, ok := call.Call.Value.(*ssa.Builtin)
+		return ok && bi.Name() == "len" && isLoadOfField(call.Call.Args[0], fPay)
+	}
+	nPut := 0
+	okPut := true
+	allInstrs(wmp, func(in ssa.Instruction) {
+		call, ok := in.(*ssa.Call)
+		if !ok {
+			return
+		}
+		sc := call.Common().StaticCallee()
+		if sc == nil || sc.Pkg == nil || sc.Pkg.Pkg.Path() != "encoding/binary" || (sc.Name() != "PutUint16" && sc.Name() != "PutUint32") {
+			return
+		}
+		nPut++
+		a := call.Common().Args
+		if !isLenOfPayload(a[len(a)-1]) {
+			okPut = false
+		}
+	})
+	c.decide(okPut && nPut == 2, rule, "writeMsgPattern|the length prefix is len(payloadToSend)", wmp.Pos(), "PutUint16/PutUint32(len(payloadToSend)) for v0 / v1+",
+		"a length prefix of the auth payload is not exactly len(payloadToSend): the initiator cuts the payload at the wrong place")
+	// v0 assembly: the local bytes.Buffer gets the length array and then payloadToSend whole; its
+	// Bytes() are copied to the start of the fresh fixed-size buffer
+	var writes []*ssa.Call
+	var cp *ssa.Call
+	allInstrs(wmp, func(in ssa.Instruction) {
+		call, ok := in.(*ssa.Call)
+		if !ok {
+			return
+		}
+		if sc := call.Common().StaticCallee(); sc != nil && isMethod(sc, "bytes", "Buffer", "Write") && localAssemblyBuffer(call.Common().Args[0]) {
+			// only the payload assembly buffer (not the act buffer): its Bytes() feed a copy
+			writes = append(writes, call)
+		}
+		if isBuiltinCall(call, "copy") {
+			if src, ok := call.Call.Args[1].(*ssa.Call); ok {
+				if sc := src.Common().StaticCallee(); sc != nil && isMethod(sc, "bytes", "Buffer", "Bytes") {
+					cp = call
+				}
+			}
+		}
+	})
+	okAsm, why := cp != nil, "no copy of the assembled bytes"
+	if okAsm {
+		dst, _ := cp.Call.Args[0].(*ssa.Slice)
+		if dst == nil || dst.Low != nil {
+			okAsm, why = false, "the framed bytes are not copied to the start of the buffer"
+		}
+		srcBuf := cp.Call.Args[1].(*ssa.Call).Common().Args[0]
+		var mine []*ssa.Call
+		for _, wr := range writes {
+			if wr.Common().Args[0] == srcBuf {
+				mine = append(mine, wr)
+			}
+		}
+		if len(mine) != 2 {
+			okAsm, why = false, fmt.Sprintf("%d writes into the assembly buffer (length, payload expected)", len(mine))
+		} else {
+			first, second := mine[0], mine[1]
+			if instrDominates(second, first) {
+				first, second = second, first
+			}
+			if _, isArr := first.Common().Args[1].(*ssa.Slice); !isArr {
+				okAsm, why = false, "the first write is not the length array"
+			}
+			if !isLoadOfField(second.Common().Args[1], fPay) {
+				okAsm, why = false, "the second write is not payloadToSend itself, whole"
+			}
+		}
+	}
+	c.decide(okAsm, rule, "writeMsgPattern|v0 frame = length, then payloadToSend whole, at the start of the buffer", wmp.Pos(), "Write(length[:]); Write(payloadToSend); copy(payload, Bytes())",
+		"the version-0 act-2 buffer is not assembled as length prefix + whole payload at offset 0 ("+why+")")
 }
